@@ -13,10 +13,10 @@ func init() {
 	register(&Property{
 		ID:    "C18",
 		Level: "fault_enumeration",
-		Rule: "case i = (class i mod K, variation): K rejection classes (multiple content-types; Connect markers on a non-GET without content-type; unknown RPC path with and without unknown handler; " +
+		Rule: "case i = (class i mod K, variation): K rejection classes (multiple content-types; Connect markers on a non-GET with or without content-type; unknown RPC path with and without unknown handler; " +
 			"REST path without route; REST route with another HTTP method; RPC path with a non-POST method; Connect GET on a method with side effects; stream type the client form cannot carry; " +
 			"bidi over HTTP/1.1; gRPC over HTTP/1.1; malformed timeout in each encoding; Content-Encoding on an enveloped protocol; unknown compression; unknown codec; REST-only target for a method without binding; " +
-			"undecodable / truncated / oversized / undecompressable leading message when the request line needs it; ResponseWriter without Flusher) x every client form that can express them x random configurations, " +
+			"undecodable / truncated / oversized / undecompressable leading message when the request line needs it; a leading message that decodes but whose path-variable field does not fit the REST template; ResponseWriter without Flusher) x every client form that can express them x random configurations, " +
 			"plus exit-path classes (success, pass-through, unknown handler, mid-stream request error, mid-stream response error, handler panic). monitors: invocation counters over all handlers, the context the handler saw " +
 			"(inspected after ServeHTTP returned), after-return flags on the instrumented request body and ResponseWriter. oracle: <=1 invocation always, 0 service invocations for every rejection class, ctx.Err()!=nil after return, no I/O after return. " +
 			"non-trivial = rejection after the method was resolved or an exit path other than plain success; distinct by (class, form, config)",
